@@ -2313,7 +2313,7 @@ package ucfg
 //@ at-call reifyMergeValue requires val != pathVal(pathFor(entry(name), entry(opts).opts), entry(cfg)) ==> typeof(val) == *cfgNil && val.(*cfgNil).cfgPrimitive.ctx.field == entry(name) && val.(*cfgNil).cfgPrimitive.ctx.parent == subval(entry(cfg))
 //@ requires cfg != nil && opts.opts != nil && rvCanSet(to)
 //@ rvwrites rvRootOf(to), pointeeStore()
-//@ ensures [absent_untouched] result == nil && old(absent(cfg, name, opts.opts)) && rvRootOf(to) != pointeeStore() && (rtKind(fieldType) == 22 || (rtKind(fieldType) != 25 && !hasInit(fieldType))) ==> rvver(rvRootOf(to)) == old(rvver(rvRootOf(to)))
+//@ ensures [absent_untouched] result == nil && old(absent(cfg, name, opts.opts)) && rvRootOf(to) != pointeeStore() && (rtKind(fieldType) == 22 || ((rtKind(fieldType) != 25 || fieldType == tRegexp) && !hasInit(fieldType))) ==> rvver(rvRootOf(to)) == old(rvver(rvRootOf(to)))
 
 // ---------------------------------------------------------------- C03 / C06: dispatch of typed unpacking
 //@ ghost func gotypeOf(v value) reflect.Type
